@@ -152,16 +152,20 @@ func verifHarnessC18CopyInOut() {
 var verifInterleave struct {
 	on    bool
 	d     *DB
-	opB   int
+	k     *kv
+	n     int // how many requests the other client issues in the window (1 or 2)
+	opB   [2]int
 	nameB string
-	verB  api.SecretVersion
-	valB  []byte
+	verB  [2]api.SecretVersion
+	valB  [2][]byte
 	resB  verifOpResult
 	ran   bool
+	// the states a sequential explanation may place the first request in: before, between and after the other client's requests
+	states []map[string]*secret
 }
 
-// called by the sink after a successful Sync: another client's whole request may run here (unless the caller holds the DB lock,
-// in which case the other request would simply wait)
+// called by the sink after a successful Sync: another client's whole requests may run here (unless the caller holds the DB lock,
+// in which case the other requests would simply wait)
 func verifInterleaveHook() {
 	if !verifInterleave.on || verifInterleave.ran {
 		return
@@ -173,23 +177,50 @@ func verifInterleaveHook() {
 		return
 	}
 	verifInterleave.ran = true
-	verifInterleave.resB = verifCallOp(verifInterleave.d, verifInterleave.opB, verifSuperuser(), verifInterleave.nameB, verifInterleave.verB, verifInterleave.valB)
+	for i := 0; i < verifInterleave.n; i++ {
+		verifInterleave.resB = verifCallOp(verifInterleave.d, verifInterleave.opB[i], verifSuperuser(), verifInterleave.nameB, verifInterleave.verB[i], verifInterleave.valB[i])
+		verifInterleave.states = append(verifInterleave.states, snapshot(verifInterleave.k.secrets))
+	}
+}
+
+// verifReadExplainedBy: the outcome of a get / conditional get of name (with V=ver) is what that call returns when run alone in state st.
+func verifReadExplainedBy(st map[string]*secret, op int, name string, ver api.SecretVersion, res verifOpResult) bool {
+	s := st[name]
+	if s == nil {
+		return and(res.value == nil, res.err != nil)
+	}
+	if op == opGetConditional && ver != 0 {
+		if s.ActiveVersion == ver {
+			return and(res.value == nil, res.err != nil)
+		}
+	}
+	if res.value == nil {
+		return false
+	}
+	return and(res.value.Version == s.ActiveVersion, mapHas(s.Versions, s.ActiveVersion), s.Versions[s.ActiveVersion] == byteString(res.value.Value))
 }
 
 func verifC14Interleave(opA int) {
 	k := verifSymKV(param("secrets"), param("versions"), "")
 	assume(verifKVInv(k))
-	// two puts happen here: the counter bound of the claim (no wrap at 2^32-1) must leave room for both
-	assume(mapAll(k.secrets, func(_ string, s *secret) bool { return s.LatestVersion < 0xFFFFFFFE }))
+	// two puts happen here: the counter bound of the claim (no wrap at 2^32-1) must leave room for all of them
+	assume(mapAll(k.secrets, func(_ string, s *secret) bool { return s.LatestVersion < 0xFFFFFFFC }))
 	d := verifDB(k, &verifSink{})
 	name := nondetString("name")
 	verA := api.SecretVersion(nondetU32("versionA"))
 	valA := nondetSeq("valA")
-	verifInterleave.on, verifInterleave.d, verifInterleave.ran = true, d, false
-	verifInterleave.opB = []int{opPut, opActivate, opDeleteVersion, opDelete}[nondetChoice("opB", 4)]
+	verifInterleave.on, verifInterleave.d, verifInterleave.k, verifInterleave.ran = true, d, k, false
+	verifInterleave.n = 1
+	if opA == opGet || opA == opGetConditional {
+		verifInterleave.n = 2 // a rotation (activate the new version, delete the old one) is two requests
+	}
+	for i := 0; i < verifInterleave.n; i++ {
+		verifInterleave.opB[i] = []int{opPut, opActivate, opDeleteVersion, opDelete}[nondetChoice("opB", 4)]
+		verifInterleave.verB[i] = api.SecretVersion(nondetU32("versionB"))
+		verifInterleave.valB[i] = nondetSeq("valB")
+	}
 	verifInterleave.nameB = name // same secret: the interesting case
-	verifInterleave.verB = api.SecretVersion(nondetU32("versionB"))
-	verifInterleave.valB = nondetSeq("valB")
+	verifInterleave.states = []map[string]*secret{snapshot(k.secrets)}
 
 	resA := verifCallOp(d, opA, verifSuperuser(), name, verA, valA)
 
@@ -197,26 +228,30 @@ func verifC14Interleave(opA int) {
 	assert("state-consistent-after-both", verifKVInv(k))
 	resB := verifInterleave.resB
 	s := k.secrets[name]
-	if verifInterleave.ran && opA == opPut && verifInterleave.opB == opPut && resA.err == nil && resB.err == nil {
+	if verifInterleave.ran && opA == opPut && verifInterleave.opB[0] == opPut && resA.err == nil && resB.err == nil {
 		// B ran first (inside A's window), then A: both acknowledged values are there, under their own numbers
 		if s == nil {
 			assert("both-puts-retrievable", false)
 			return
 		}
 		assert("both-puts-retrievable", and(mapHas(s.Versions, resA.version), s.Versions[resA.version] == byteString(valA),
-			mapHas(s.Versions, resB.version), s.Versions[resB.version] == byteString(verifInterleave.valB)))
-		assert("different-values-different-versions", implies(byteString(valA) != byteString(verifInterleave.valB), resA.version != resB.version))
+			mapHas(s.Versions, resB.version), s.Versions[resB.version] == byteString(verifInterleave.valB[0])))
+		assert("different-values-different-versions", implies(byteString(valA) != byteString(verifInterleave.valB[0]), resA.version != resB.version))
 	}
-	if opA == opGet && resA.value != nil {
-		// the pair returned belongs together in the final state or was deleted meanwhile (B ran before A's read, so it is the final state)
-		if s != nil {
-			assert("get-pairs-number-with-its-own-bytes", implies(mapHas(s.Versions, resA.value.Version), s.Versions[resA.value.Version] == byteString(resA.value.Value)))
+	if opA == opGet || opA == opGetConditional {
+		// linearizable: the outcome is the one this call has when run alone before, between or after the other client's requests
+		ok := false
+		for _, st := range verifInterleave.states {
+			ok = or(ok, verifReadExplainedBy(st, opA, name, verA, resA))
 		}
+		assert("read-explained-by-a-sequential-order", ok)
+		reach("end-read")
 	}
 	reach("end")
 }
 
-func verifHarnessC14InterleavePut()           { verifC14Interleave(opPut) }
-func verifHarnessC14InterleaveActivate()      { verifC14Interleave(opActivate) }
-func verifHarnessC14InterleaveDeleteVersion() { verifC14Interleave(opDeleteVersion) }
-func verifHarnessC14InterleaveGet()           { verifC14Interleave(opGet) }
+func verifHarnessC14InterleavePut()            { verifC14Interleave(opPut) }
+func verifHarnessC14InterleaveActivate()       { verifC14Interleave(opActivate) }
+func verifHarnessC14InterleaveDeleteVersion()  { verifC14Interleave(opDeleteVersion) }
+func verifHarnessC14InterleaveGet()            { verifC14Interleave(opGet) }
+func verifHarnessC14InterleaveGetConditional() { verifC14Interleave(opGetConditional) }
